@@ -243,17 +243,39 @@ def decPairs (j : Json) (k : String) : Except String (List (String × Val)) := d
     | [a, b] => return (← asStr a, ← decVal b)
     | _ => throw "bad pair"
 
+/-! Boolean versions of the hypotheses of the C13 theorems (`ShapeWF`, distinct
+    parameter names), evaluated on every world the harness sends: the reply says
+    whether the tested case lies inside the domain the theorems speak about. -/
+
+def nodupB : List String → Bool
+  | [] => true
+  | x :: xs => !xs.contains x && nodupB xs
+
+def orderedB : List Param → Bool
+  | [] => true
+  | p :: ps =>
+    ps.all (fun q => (q.kind != .posOnly || p.kind == .posOnly) && (p.kind != .kwOnly || q.kind == .kwOnly))
+      && orderedB ps
+
+def shapeWFb (s : InShape) : Bool :=
+  nodupB (s.fields.map (·.id)) && nodupB (s.params.map (·.name)) &&
+  s.fields.all (fun f => s.params.any (fun p => p.fieldId == f.id)) &&
+  orderedB s.params &&
+  s.params.all (fun p => p.kind != .posOnly || s.fields.all (fun f => f.id != p.fieldId || f.required))
+
 def handle : Protocol.Handler := fun j => do
   let op ← fieldStr j "op"
   match op with
   | "convert" =>
-    let W := (← decWorld (← field j "world")).toWorld
+    let WJ ← decWorld (← field j "world")
+    let W := WJ.toWorld
     let sig ← decSignature (← field j "sig")
     let recipe ← (← fieldArr j "recipe").mapM decProvider
     let fuel ← (fieldNat j "fuel" <|> pure 32)
     let calls ← fieldArr j "calls"
+    let wf := WJ.ins.all (fun e => shapeWFb e.2) && nodupB (sig.params.map (·.name))
     match provideConverter W recipe fuel sig with
-    | none => return Json.mkObj [("created", false)]
+    | none => return Json.mkObj [("created", false), ("wf", wf)]
     | some c =>
       let results ← calls.mapM fun cj => do
         let args ← (← fieldArr cj "args").mapM decVal
@@ -262,7 +284,7 @@ def handle : Protocol.Handler := fun j => do
           | some vals => convertSpec W recipe fuel sig vals
           | none => none
         return Json.mkObj [("model", encOptVal (c.call args kwargs)), ("spec", encOptVal spec)]
-      return Json.mkObj [("created", true), ("results", listJ results),
+      return Json.mkObj [("created", true), ("wf", wf), ("results", listJ results),
         ("signature", listJ (c.signature.params.map fun p => Json.str p.name))]
   | "link" =>
     -- linking of every field of the destination model at `dst` from the source model at `src`
